@@ -7,7 +7,7 @@ RULE = ("mutation-based stream over valid SYN/SYN+ACK/ACK packets (byte flips, t
         "non-ASCII) given to fingerprint_http; every call under a 5 s alarm and a 4 GB address-space limit; outcome classes ok / "
         "PacketError / other:<type> / TIMEOUT (incl. 64 KB payloads with long runs of blanks / colons / CRs / brackets, 4000 headers, 2500 continuation lines); where the model can dissect the input the ok/PacketError class is compared with it; "
         "exhaustive: all option areas of length 4 over {0,1,2,3,4,5,8,255} (4096) and all (kind,len) prefixes")
-GEN_TIE = ['options', 'select', 'http', 'httpx', 'h11', 're']     # TCPOptions.parse (the option walker's while loop) is also TRANSLATED from /repo's source on every run and proved equal to the model
+GEN_TIE = ['options', 'select', 'uptime', 'http', 'httpx', 'h11', 're']     # TCPOptions.parse (the option walker's while loop) is also TRANSLATED from /repo's source on every run and proved equal to the model
 ASSUMPTIONS = ["byte strings Scapy itself refuses to dissect (exception inside scapy.layers) are outside the quantifier and counted separately",
                "work/memory proportionality is proved on the model (fuel and layout-length theorems); on the implementation only hangs and gross blow-ups are detectable"]
 EXHAUSTIVE = {"all option areas of length 4 over the alphabet {0,1,2,3,4,5,8,255}": True, "all (kind, length) two-byte prefixes 256x256 (thorough)": True}
